@@ -400,6 +400,17 @@ def run(ctx) -> None:
         ctx.count("wide_chains")
         ctx.judged(sig=("wide-chain", ctx.shard), nontrivial=True, sample=case)
         done += 1
+    if ctx.shard == 3:
+        # non-contiguous wildcards on the same side that share the base: covered ones and ones that merely look smaller
+        lines = ["permit ip 10.0.0.0 0.0.2.3 any", "permit ip 10.0.0.0 0.0.1.1 any", "permit ip 10.0.0.0 0.0.2.1 any",
+                 "deny tcp any 172.16.0.0 0.0.5.5", "deny tcp any 172.16.0.0 0.0.3.1", "deny tcp any 172.16.0.0 0.0.4.1",
+                 "permit udp 10.1.0.0 0.0.6.6 any eq 53", "permit udp 10.1.0.0 0.0.5.0 any eq 53", "permit udp 10.1.0.0 0.0.2.2 any eq 53"]
+        case = {"platform": "ios", "text": grammar.acl_header("ios", "NCW") + "\n" + "\n".join("  " + ln for ln in lines),
+                "members": {}, "group_by": "", "skip": None}
+        execute(ctx, case)
+        ctx.count("non_contiguous_same_base_acls")
+        ctx.judged(sig=("nc-same-base",), nontrivial=True, sample=case)
+        done += 1
     while done < n_max and not ctx.expired():
         platform = rng.choice(["ios", "nxos"])
         case = gen_case(rng, platform)
